@@ -331,14 +331,14 @@ var pureHelpers = map[string]bool{
 	"internal/chain.RoundToBytes": true, "internal/chain.BytesToRound": true,
 	"(*crypto/vault.Vault).GetGroup": true, "(*crypto/vault.Vault).GetPub": true, "(*crypto/vault.Vault).Index": true,
 	"(*crypto/vault.Vault).GetInfo": true,
-	"(*common/key.Group).Len": true, "(*common/key.Group).Node": true, "(*common/key.Group).Find": true,
+	"(*common/key.Group).Len":       true, "(*common/key.Group).Node": true, "(*common/key.Group).Find": true,
 	"(*common/key.Identity).Address": true, "(*common/key.Node).Address": true,
 	"(*common/key.DistPublic).Key": true, "(*common/key.DistPublic).PubPoly": true,
-	"common/key.MinimumT":             true,
+	"common/key.MinimumT":                     true,
 	"(*internal/chain/beacon.roundCache).Len": true, "(*internal/chain/beacon.roundCache).Partials": true,
 	"(*internal/chain/beacon.roundCache).Msg": true,
-	"internal/dkg.termsFromState": true,
-	"(*common/chain.Info).Hash":   true, "(*common/chain.Info).HashString": true,
+	"internal/dkg.termsFromState":             true,
+	"(*common/chain.Info).Hash":               true, "(*common/chain.Info).HashString": true,
 	"(*internal/core.BeaconProcess).getBeaconID": true,
 	"(*common.Beacon).GetRound":                  true,
 }
@@ -433,44 +433,13 @@ func reachableAvoiding(fn *ssa.Function, target *ssa.BasicBlock, cut func(e edge
 	if len(fn.Blocks) == 0 {
 		return false
 	}
-	seen := map[*ssa.BasicBlock]bool{fn.Blocks[0]: true}
-	work := []*ssa.BasicBlock{fn.Blocks[0]}
-	for len(work) > 0 {
-		b := work[len(work)-1]
-		work = work[:len(work)-1]
-		if b == target {
-			return true
-		}
-		for i, s := range b.Succs {
-			if cut(edge{b, i}) {
-				continue
-			}
-			if !seen[s] {
-				seen[s] = true
-				work = append(work, s)
-			}
-		}
-	}
-	return false
+	return walkFeasible(fn.Blocks[0], pctx{}, cut, func(b *ssa.BasicBlock) bool { return b == target })
 }
 
 // reachableFrom: blocks reachable from start (inclusive) avoiding cut edges.
 func reachableFrom(start *ssa.BasicBlock, cut func(e edge) bool) map[*ssa.BasicBlock]bool {
-	seen := map[*ssa.BasicBlock]bool{start: true}
-	work := []*ssa.BasicBlock{start}
-	for len(work) > 0 {
-		b := work[len(work)-1]
-		work = work[:len(work)-1]
-		for i, s := range b.Succs {
-			if cut != nil && cut(edge{b, i}) {
-				continue
-			}
-			if !seen[s] {
-				seen[s] = true
-				work = append(work, s)
-			}
-		}
-	}
+	seen := map[*ssa.BasicBlock]bool{}
+	walkFeasible(start, pctx{}, cut, func(b *ssa.BasicBlock) bool { seen[b] = true; return false })
 	return seen
 }
 
@@ -889,25 +858,7 @@ func enclosingNamed(fn *ssa.Function) *ssa.Function {
 
 // reachableAvoidingFrom: is target reachable from start without crossing a cut edge?
 func reachableAvoidingFrom(start, target *ssa.BasicBlock, cut func(e edge) bool) bool {
-	seen := map[*ssa.BasicBlock]bool{start: true}
-	work := []*ssa.BasicBlock{start}
-	for len(work) > 0 {
-		b := work[len(work)-1]
-		work = work[:len(work)-1]
-		if b == target {
-			return true
-		}
-		for i, s := range b.Succs {
-			if cut(edge{b, i}) {
-				continue
-			}
-			if !seen[s] {
-				seen[s] = true
-				work = append(work, s)
-			}
-		}
-	}
-	return false
+	return walkFeasible(start, pctx{}, cut, func(b *ssa.BasicBlock) bool { return b == target })
 }
 
 // mustCrossFrom: every path from block start to sink crosses an establishing edge (vacuously true if unreachable).
@@ -978,4 +929,111 @@ func reachingStores(ld *ssa.UnOp, a *ssa.Alloc) []*ssa.Store {
 		work = append(work, b.Preds...)
 	}
 	return out
+}
+
+// retLeaf is one value a function may return for a result, pinned to the instruction its paths leave from: the Return
+// itself, or, when the returned value is a phi (`return a && b`, `return helper()` after expansion), the terminator of the
+// predecessor the value flows in from. Guards are checked at `at`.
+type retLeaf struct {
+	v   ssa.Value
+	at  ssa.Instruction
+	ret *ssa.Return
+}
+
+func returnLeaves(fn *ssa.Function, idx int) []retLeaf {
+	var out []retLeaf
+	var expand func(v ssa.Value, at ssa.Instruction, r *ssa.Return, d int)
+	expand = func(v ssa.Value, at ssa.Instruction, r *ssa.Return, d int) {
+		if ph, ok := v.(*ssa.Phi); ok && d < 4 {
+			for i, e := range ph.Edges {
+				pred := ph.Block().Preds[i]
+				if len(pred.Instrs) == 0 {
+					continue
+				}
+				expand(e, pred.Instrs[len(pred.Instrs)-1], r, d+1)
+			}
+			return
+		}
+		out = append(out, retLeaf{v, at, r})
+	}
+	for _, r := range returnsOf(fn) {
+		ops := returnOperands(r)
+		if idx >= len(ops) {
+			continue
+		}
+		for _, o := range ops[idx] {
+			expand(o, r, r, 0)
+		}
+	}
+	return out
+}
+
+// calledFunc: the function a call / go / defer instruction runs when that is known from the instruction itself: a
+// literal (with or without free variables) or a statically resolved callee.
+func calledFunc(ci ssa.CallInstruction) *ssa.Function {
+	v := ci.Common().Value
+	if mc, ok := v.(*ssa.MakeClosure); ok {
+		v = mc.Fn
+	}
+	if f, ok := v.(*ssa.Function); ok && !ci.Common().IsInvoke() {
+		return f
+	}
+	return ci.Common().StaticCallee()
+}
+
+// canonValue follows a value back to where it was made, through the plumbing that does not change it: conversions, a
+// local cell with a single store, a variable captured by a function literal (to the enclosing function's cell), and a
+// parameter of a literal that is called where it is written (to the argument). Used to decide that two mentions, one in
+// a literal and one in its enclosing function, are the same channel / object.
+func canonValue(v ssa.Value) ssa.Value {
+	for d := 0; d < 8 && v != nil; d++ {
+		v = stripConv(v)
+		switch x := v.(type) {
+		case *ssa.UnOp:
+			if x.Op != token.MUL {
+				return v
+			}
+			switch cell := x.X.(type) {
+			case *ssa.Alloc:
+				if sv := singleStore(cell); sv != nil {
+					v = sv
+					continue
+				}
+				return cell
+			case *ssa.FreeVar:
+				f := cell.Parent()
+				var bound ssa.Value
+				if f != nil && f.Parent() != nil {
+					forEachInstr(f.Parent(), func(_ *ssa.BasicBlock, _ int, in ssa.Instruction) {
+						if mc, ok := in.(*ssa.MakeClosure); ok && mc.Fn == ssa.Value(f) {
+							for i, fv := range f.FreeVars {
+								if fv == cell && i < len(mc.Bindings) {
+									bound = mc.Bindings[i]
+								}
+							}
+						}
+					})
+				}
+				a, ok := bound.(*ssa.Alloc)
+				if !ok {
+					return v
+				}
+				if sv := singleStore(a); sv != nil {
+					v = sv
+					continue
+				}
+				return a
+			}
+			return v
+		case *ssa.Parameter:
+			arg, _ := callSiteArg(x)
+			if arg == nil {
+				return v
+			}
+			v = arg
+			continue
+		}
+		return v
+	}
+	return v
 }
